@@ -300,8 +300,8 @@ class Ctx:
 
 
 def write_replay(prop: str, v: dict) -> Path:
-    d = VERIF / "replays"
-    d.mkdir(exist_ok=True)
+    d = Path(os.environ.get("VERIF_REPLAY_DIR", VERIF / "replays"))
+    d.mkdir(parents=True, exist_ok=True)
     obj = {
         "property": prop,
         "kind": "obligation-unchecked" if v["no_input"] else "failing-input",
@@ -361,12 +361,14 @@ def finish(ctx: Ctx, checker_cmd: str) -> int:
         "wall_s": round(time.time() - ctx.t0, 2),
         "violations": len(unlisted),
     }
-    (VERIF / "evidence").mkdir(exist_ok=True)
-    (VERIF / "evidence" / f"{ctx.prop}.json").write_text(json.dumps(ev, indent=1, default=str))
+    evdir = Path(os.environ.get("VERIF_EVIDENCE_DIR", VERIF / "evidence"))
+    evdir.mkdir(parents=True, exist_ok=True)
+    (evdir / f"{ctx.prop}.json").write_text(json.dumps(ev, indent=1, default=str))
     for v in unlisted:
         p = write_replay(ctx.prop, v)
         tail = " no-failing-input-found" if v["no_input"] else ""
-        print(f"VIOLATION property={ctx.prop} replay={p.relative_to(VERIF)}{tail}")
+        shown = p.relative_to(VERIF) if VERIF in p.parents else p
+        print(f"VIOLATION property={ctx.prop} replay={shown}{tail}")
         print(f"  {v['what']}")
     if unlisted:
         return 1
